@@ -10,6 +10,14 @@ Capture points (boundary only):
        recorder (nothing leaves the process); dgram bytes decoded with vf/osc.py.
 Ledger: alloc/free of the server's node, buffer, control-bus and audio-bus
 allocator objects are wrapped (instance attributes).
+
+Use after free (round 7): operations on and with objects that were freed
+earlier in the history (vf/c17_gen.py kinds busq, busfreed, buffreed,
+nodefreed, freed `$map` / `$bus` / `$buf` arguments).  Decided by the same
+three oracles: the per-method expectation (must raise / may raise but must not
+send, vf/model_cmds.py), the return value of Bus.as_map() on a live bus, and
+the id ledger, which also resolves ids written as bus mapping symbols
+('c3', 'a2': role usesym of vf/cmdref.py) in /s_new, /n_set and /n_setn.
 """
 
 import errno
@@ -302,6 +310,8 @@ class Runner:
         if k == 'hold':
             _time.sleep(op['secs'])      # the block simply stays open
             return
+        if k == 'busq':
+            return getattr(self.objs[op['h']], op['m'])()
         if k == 'synth':
             args = self.real(op.get('args'))
             if op.get('args_as_tuple') and args is not None:
@@ -538,11 +548,11 @@ class Runner:
         if op.get('m') == 'seti' and 'layout' not in op:
             from vf.c17_gen import SETI_DEFS
             op['layout'] = SETI_DEFS[op['def']]
-        if 'out' not in op:
-            # everything the expectation needs is known before the call
-            exp_pre = mc.expect(op, self.env)
+        # everything the expectation needs is known before the call (no
+        # object created), or the argument expressions already have to raise
+        exp_pre = mc.expect_before(op, self.env)
         try:
-            self.perform(op)
+            rec['returned'] = self.perform(op)
         except Violation:
             raise
         except Exception as e:
@@ -555,14 +565,14 @@ class Runner:
         if rec['raised'] is None or exp_pre is not None:
             rec['expect'] = exp_pre if exp_pre is not None else mc.expect(op, self.env)
         else:
-            rec['expect'] = None
+            rec['expect'] = mc.expect_if_raised(op, self.env)
         if rec['raised'] is None:
             self.after(op)
         self.count('ops_executed')
         self.count(f"op:{rec['expect'].method}" if rec['expect'] else 'op:raised-before-expectation')
         e = rec['raised']
-        if e is not None and not (rec['expect'] is not None and rec['expect'].raises
-                                  and type(e).__name__ == rec['expect'].raises):
+        if e is not None and not (rec['expect'] is not None
+                                  and rec['expect'].raise_ok(e)):
             self.aborted = True      # undocumented exception: stop the history here
         return rec
 
@@ -755,13 +765,39 @@ class Judge:
         if e is None:
             if exp.raises:
                 self.fail(f'C17/method/{exp.method}/documented-exception-not-raised',
-                          rec, expected=exp.raises)
+                          rec, expected=exp.raises, returned=repr(rec.get('returned')),
+                          sent=[g.plain() for g, _ in
+                                self.packets[rec['call0']:rec['call1']]])
+            if exp.returns is not mc.NOTHING:
+                self.count('return_values_checked')
+                if rec.get('returned') != exp.returns or \
+                        type(rec.get('returned')) is not type(exp.returns):
+                    self.fail(f'C17/method/{exp.method}/wrong-return-value', rec,
+                              expected=exp.returns, returned=repr(rec.get('returned')))
+            self.note_use_after_free(rec, raised=False)
             return
-        if exp is not None and exp.raises and type(e).__name__ == exp.raises:
+        if exp is not None and exp.raise_ok(e):
             self.count('documented_exceptions_seen')
+            self.note_use_after_free(rec, raised=True)
             return
         method = exp.method if exp is not None else _method_of(rec['op'])
         self.fail(f'C17/raises/{method}/{_site(e)}', rec, tb=short_tb(e))
+
+    def note_use_after_free(self, rec, raised):
+        """Evidence: which kinds of use after free were judged."""
+        exp = rec['expect']
+        op = rec['op']
+        if exp.freed_args:
+            self.count('freed_object_in_value_slot_checked')
+            self.count('observed_freed_object_in_value_slot_'
+                       + ('raised' if raised else 'sent_as_nil_0'))
+        if '(freed' in exp.method and not exp.freed_args:
+            self.count('calls_on_freed_objects_checked')
+            self.count(f'freed:{exp.method}')
+            if op.get('cached_symbol'):
+                self.count('as_map_after_free_with_cached_symbol_checked')
+        if op.get('on_freed_node'):
+            self.count('ops_on_freed_nodes_checked')
 
     def check_packets_outside(self, rec):
         exp = rec['expect']
@@ -888,6 +924,8 @@ class Judge:
             elif kind in ('cbus', 'abus'):
                 if first == -1 and cnt == 1:
                     continue
+                if role == 'usesym':
+                    self.count('map_symbol_mentions_checked')
                 pool = 'control' if kind == 'cbus' else 'audio'
                 for a in range(first, first + max(cnt, 1)):
                     if a not in before[pool] and a not in after[pool]:
@@ -908,6 +946,10 @@ class Judge:
             want = list(exp.ledger)
         ev = rec['events']
         allocs = [e for e in ev if e[1] == 'alloc']
+        if rec['raised'] is not None and exp is not None and exp.may_raise:
+            # node ids are never returned: one drawn before an allowed raise
+            # is simply lost
+            allocs = [e for e in allocs if e[0] != 'node']
         releases = [e for e in ev if e[1] == 'free' and e[3] is not None]
         method = exp.method if exp is not None else _method_of(rec['op'])
         self.count('ledger_checks')
@@ -1252,7 +1294,7 @@ def _method_of(op):
         return f"{op['cls']}.{op['ctor']}"
     if k == 'buffer':
         return f"Buffer.{op['ctor']}"
-    if k in ('node', 'buf', 'busm', 'server'):
+    if k in ('node', 'buf', 'busm', 'busq', 'server'):
         return f"{k}.{op['m']}"
     return k
 
